@@ -20,7 +20,7 @@ var CfgC01 = reg(&MachineCfg{
 	Prop: "C01",
 	Setup: func(g *G, opt *world.Options) {
 		if g.chance("aol-genesis-mode", 22) {
-			opt.AolGenesis = g.genAolGenesis(app.MakeEncodingConfig().Codec)
+			opt.AolGenesis = g.genAolGenesis(app.MakeEncodingConfig().Codec, false)
 		}
 	},
 	Gens: []interface{}{"aol", 60, "commit", 14, "crash", 4, "restart", 4, "export", 5, "bank", 2, "authz", 3, "did", 2, "pnft", 2, "sim_aol", 4},
@@ -36,6 +36,11 @@ var CfgC01 = reg(&MachineCfg{
 
 var CfgC02 = reg(&MachineCfg{
 	Prop: "C02",
+	Setup: func(g *G, opt *world.Options) {
+		if g.chance("aol-genesis-mode", 25) {
+			opt.AolGenesis = g.genAolGenesis(app.MakeEncodingConfig().Codec, true)
+		}
+	},
 	Gens: []interface{}{"aol", 64, "commit", 12, "authz", 12, "crash", 2, "restart", 2, "bank", 2, "pnft", 2, "sim_aol", 6},
 	Bias: map[string]int{"right-signers": 55, "exec": 22, "fee-payer": 40, "multi": 18},
 	Rule: "same machine with independently chosen signer sets (right, other account, swapped, dropped, garbage signature, wrong sequence, extra), sign modes direct/amino-json/direct-aux, named fee payers and authz grant/revoke/exec; oracle = transition validity on the aol store diff of every DeliverTx; non-trivial = at least one refused AOL attempt and at least one accepted writer-list change or append",
@@ -48,7 +53,7 @@ var CfgC13 = reg(&MachineCfg{
 	Prop: "C13",
 	Setup: func(g *G, opt *world.Options) {
 		if g.chance("aol-genesis-mode", 22) {
-			opt.AolGenesis = g.genAolGenesis(app.MakeEncodingConfig().Codec)
+			opt.AolGenesis = g.genAolGenesis(app.MakeEncodingConfig().Codec, false)
 		}
 	},
 	Gens: []interface{}{"aol", 68, "commit", 18, "crash", 3, "export", 4, "bank", 2, "walks", 3, "sim_aol", 2},
@@ -100,7 +105,7 @@ var CfgC04 = reg(&MachineCfg{
 var CfgC05 = reg(&MachineCfg{
 	Prop: "C05",
 	Gens: []interface{}{"did", 66, "commit", 14, "crash", 4, "restart", 4, "export", 6, "bank", 2, "sim_did", 4},
-	Bias: map[string]int{"right-signers": 94, "exec": 2, "right-proof": 75, "did-deactivate": 25, "aim-tomb": 45, "did-replay": 8, "update-to-empty": 14},
+	Bias: map[string]int{"right-signers": 94, "exec": 2, "right-proof": 75, "did-deactivate": 25, "aim-tomb": 45, "did-replay": 8, "update-to-empty": 14, "did-mismatch": 12},
 	Rule: "DID machine weighted to deactivation followed by long suffixes of create/update/deactivate on the tombstone with former and fresh keys, restarts, crashes and export/import; oracle = tombstone permanence (read says not found, entry byte-identical, every later message refused) and create-on-existing refused; non-trivial = a deactivation followed by >=3 attempts on the tombstone incl. one with a harness-made proof and a restart/export afterwards",
 	NonTrivial: func(w *world.World) bool {
 		return lab(w, "did deactivated") > 0 && lab(w, "did attempt on tombstone") >= 3 && lab(w, "did attempt on tombstone with harness-made proof") > 0 &&
@@ -223,7 +228,7 @@ var CfgC09 = reg(&MachineCfg{
 			opt.DidGenesis = g.genDidGenesis(cdc, world.DIDKeys())
 		}
 		if g.chance("aol-genesis-mode", 20) {
-			opt.AolGenesis = g.genAolGenesis(cdc)
+			opt.AolGenesis = g.genAolGenesis(cdc, false)
 		}
 	},
 	Gens: withGens("commit", 18, "export", 4, "crash", 1),
